@@ -2,7 +2,7 @@
 import re
 from props.waterlib import fl, fls, b, run_harness
 
-HDR = ["From Coq Require Import ZArith List Bool Floats.", "From Hermes Require Import Num NitroModel C01Corr C02Corr.",
+HDR = ["From Coq Require Import ZArith List Bool Floats.", "From Hermes Require Import Num NitroModel HarvestModel C01Corr C02Corr HarvestCorr.",
        "Import ListNotations.", "Open Scope float_scope."]
 
 
@@ -50,6 +50,18 @@ def till_record(c):
                fls(o["nfos"]), fls(o["naos"]), fls(o["minfos"]), fls(o["minaos"]), fls(o["c1"])))
 
 
+def harv_record(c):
+    i, o = c["in"], c["out"]
+    return ("({| hi_resid := {| ri_jn := %s; ri_dauer := %s; ri_aa := %s; ri_pesum := %s; ri_obmas := %s; ri_gehob := %s; "
+            "ri_kostro := %s; ri_nernt := %s; ri_nkopp := %s; ri_nwura := %s; ri_nfast := %s |}; hi_first := %s; hi_wuant := %s; "
+            "hi_nfos := %s; hi_naos := %s; hi_dsumm := %s |}, "
+            "{| hv_nfos := %s; hv_naos := %s; hv_dsumm := %s; hv_nresid := %s; hv_nagb := %s; hv_pesum_kept := %s; hv_pesum := %s |})"
+            % (fl(i["jn"]), b(i["dauer"]), b(i["aa"]), fl(i["pesum"]), fl(i["obmas"]), fl(i["gehob"]), fl(i["kostro"]),
+               fl(i["nernt"]), fl(i["nkopp"]), fl(i["nwura"]), fl(i["nfast"]), b(i["first"]), fls(i["wuant"]), fls(i["nfos"]),
+               fls(i["naos"]), fl(i["dsumm"]), fls(o["nfos"]), fls(o["naos"]), fl(o["dsumm"]), fl(o["nresid"]), fl(o["nagb"]),
+               b(o["pesum_kept"]), fl(o["pesum"])))
+
+
 KINDS = {
     "nmove": ("(nmove_in (T:=float) * nmove_obs)", "nmove_check", lambda c: nmove_record(c["in"], c["out"]),
               ["PE", "C1", "Q1[0]", "D/V/DB", "DISP", "KONV", "instability flag", "counters"], 60),
@@ -59,6 +71,8 @@ KINDS = {
               ["C1", "CUMDENIT"], 400),
     "denitmo": ("(list float * list float * list float * list float * float * (list float * float))", "denitmo_check",
                 denitmo_record, ["C1", "CUMDENIT"], 400),
+    "harv": ("(harvest_in (T:=float) * harv_obs)", "harvest_check", harv_record,
+             ["NFOS/NAOS after the harvest", "DSUMM", "residue N / above-ground N of the crop record", "crop N kept by a permanent crop"], 300),
     "till": ("(nmove_in (T:=float) * till_obs)", "till_check", till_record,
              ["NFOS/NAOS", "MINFOS/MINAOS", "C1 after the transport step"], 100),
 }
